@@ -25,6 +25,8 @@ Definition cid (args : list fval) : fval := Epoch_check_input_date B0 (VTuple ar
 Definition e_add (e x : fval) : fval := Epoch___add__ B0 e x.
 Definition e_radd (e x : fval) : fval := Epoch___radd__ B0 e x.
 Definition e_sub (e x : fval) : fval := Epoch___sub__ B0 e x.
+Definition e_iadd (e x : fval) : fval := Epoch___iadd__ B0 e x.
+Definition e_isub (e x : fval) : fval := Epoch___isub__ B0 e x.
 
 (* JDE at 0h of the civil day whose Julian Day Number (at noon) is n *)
 Definition jde_of (n : Z) : float := (b64_of_Z n - 0.5)%float.
@@ -188,18 +190,18 @@ Definition in_range (j : float) : bool := (0 <=? j)%float && (j <=? 5400000)%flo
 Definition flt_of (v : fval) : float := match v with VFloat f => f | _ => nan end.
 Definition is_flt (v : fval) : bool := val_eqb v (VFloat (flt_of v)).
 (* (e + x) - e = x and e - (e - x) = x to 1e-8 day; e + x is exactly Epoch(jde + x);
-   x + e is the same object as e + x *)
+   x + e and e += x give the same object as e + x, e -= x the same as e - x *)
 Definition chk_add (j : float) (x : fval) : bool :=
   let xf := off_float x in
   let s := e_add (ep j) x in
   let dl := e_sub s (ep j) in
-  is_ep s && val_eqb s (mkE [VFloat (j + xf)%float]) && val_eqb (e_radd (ep j) x) s
+  is_ep s && val_eqb s (mkE [VFloat (j + xf)%float]) && val_eqb (e_radd (ep j) x) s && val_eqb (e_iadd (ep j) x) s
   && is_flt dl && close tol8 (flt_of dl) xf.
 Definition chk_sub (j : float) (x : fval) : bool :=
   let xf := off_float x in
   let s := e_sub (ep j) x in
   let dl := e_sub (ep j) s in
-  is_ep s && val_eqb s (mkE [VFloat (j - xf)%float]) && is_flt dl && close tol8 (flt_of dl) xf.
+  is_ep s && val_eqb s (mkE [VFloat (j - xf)%float]) && val_eqb (e_isub (ep j) x) s && is_flt dl && close tol8 (flt_of dl) xf.
 Definition chk_arith (j : float) (x : fval) : bool :=
   (if in_range (j + off_float x) then chk_add j x else true) &&
   (if in_range (j - off_float x) then chk_sub j x else true).
